@@ -81,3 +81,38 @@ fn custom_auth_query_string_round_trips() {
     }
     println!("BOUNDED custom_auth_query_string_round_trips cases={} bound=signatures<={} chars over {{A 9 + / =}} raw, pre-encoded with upper-case and with lower-case hex escapes x names<={} x token keys<={} x values<=2 x 3 usernames", cases, if thorough { 4 } else { 3 }, n2, n2);
 }
+
+/// C20: "always connect with a non-empty client id, generating a fresh one when the user supplied none and otherwise keeping the
+/// user's, and preserve every other user-supplied connect option": the builder's final connect options for user options
+/// {none at all, options without a client id, with an empty one, with a real one} x {custom auth with / without password}.
+#[test]
+fn aws_builder_final_client_id_is_never_empty() {
+    use gneiss_mqtt::client::config::ConnectOptions;
+    let mut cases = 0u64; let mut fails: Vec<String> = Vec::new();
+    for with_pw in [false, true] { for variant in 0..4u8 { for keep_alive in [None, Some(60u16)] {
+        cases += 1;
+        let mut ab = AwsCustomAuthOptionsBuilder::new_unsigned(Some("authz"));
+        ab.with_username("user");
+        if with_pw { ab.with_password(b"pw"); }
+        let mut builder = match AwsClientBuilder::new_direct_with_custom_auth("example.iot.us-east-1.amazonaws.com", ab.build(), None) { Ok(b) => b, Err(e) => { fails.push(format!("builder: {:?}", e)); continue; } };
+        let mut cb = ConnectOptions::builder();
+        if keep_alive.is_some() { cb.with_keep_alive_interval_seconds(keep_alive); }
+        match variant { 2 => { cb.with_client_id(""); }, 3 => { cb.with_client_id("my-thing"); }, _ => {} }
+        let user_options = cb.build();
+        if variant != 0 { builder = builder.with_connect_options(user_options.clone()); }
+        let effective = if variant != 0 { user_options } else { ConnectOptions::builder().build() };
+        let fin = builder.build_final_connect_options(effective.clone());
+        let what = format!("user options: {} keep_alive={:?} password={}", ["none", "no client id", "empty client id", "client id my-thing"][variant as usize], keep_alive, with_pw);
+        match fin.client_id() {
+            None => fails.push(format!("{}: final client id absent", what)),
+            Some(id) if id.is_empty() => fails.push(format!("{}: final client id is empty", what)),
+            Some(id) => {
+                if variant == 3 && id != "my-thing" { fails.push(format!("{}: user's client id replaced by {:?}", what, id)); }
+                if variant != 3 && id.len() != 36 { fails.push(format!("{}: generated client id {:?} is not a UUID", what, id)); }
+            }
+        }
+    } } }
+    println!("BOUNDED aws_builder_final_client_id_is_never_empty cases={} bound=user connect options {{none, without client id, empty client id, client id}} x keep-alive set/unset x custom auth with/without password", cases);
+    for f in &fails { println!("BOUNDED-FAIL aws_builder_final_client_id_is_never_empty {}", f); }
+    assert!(fails.is_empty());
+}
